@@ -48,6 +48,115 @@ def _group_contains(group, exc) -> bool:
     return any(e is exc or (isinstance(e, BaseExceptionGroup) and _group_contains(e, exc)) for e in group.exceptions)
 
 
+_CLASSES = None
+
+
+def _classes() -> dict:
+    """The recording widget classes and the screen variant, made ONCE per process: urwid's metaclasses register every
+    widget class in a process-global table for ever, so classes defined per session would keep every session alive (the
+    thorough tier leaked gigabytes that way).  The running session is reached through `sess_holder[0]`."""
+    global _CLASSES  # noqa: PLW0603
+    if _CLASSES is not None:
+        return _CLASSES
+    import urwid  # noqa: PLC0415
+    from urwid.display import _posix_raw_display as prd  # noqa: PLC0415
+
+    holder = [None]
+
+    class Rec(urwid.WidgetWrap):
+        _sizing = frozenset(["box"])
+        sess_holder = holder
+
+        def __init__(self, w, tag, sel=True):
+            self.tag = tag
+            self.sel = sel
+            super().__init__(w)
+
+        def selectable(self):
+            return self.sel
+
+        def keypress(self, size, key):
+            sess = holder[0]
+            sess.point("keypress")
+            # (an unselectable page must not be offered keys at all; if it is, the call is recorded and the key
+            # handed back)
+            rv = super().keypress(size, key) if self.sel else key
+            if rv == "B":
+                # a widget may pass on a DIFFERENT key than it was given (a vi-keys wrapper does): the
+                # unhandled-input handler must see what the widget returned
+                rv = "translated B"
+                sess.res.probe("widget_returned_a_different_key")
+            sess.calls.append(("keypress", key, rv, tuple(size), self.tag))
+            return rv
+
+        def mouse_event(self, size, event, button, col, row, focus):
+            sess = holder[0]
+            sess.point("mouse")
+            rv = self._w.mouse_event(size, event, button, col, row, focus)
+            sess.calls.append(("mouse", (event, button, col, row), bool(rv), tuple(size), self.tag))
+            return rv
+
+        def render(self, size, focus=False):
+            sess = holder[0]
+            if not sess.harness_render:
+                sess.point("render")
+            return super().render(size, focus)
+
+    class PopRec(urwid.WidgetWrap):
+        _sizing = frozenset(["box"])
+
+        def __init__(self, launcher):
+            self.launcher = launcher
+            super().__init__(urwid.Filler(urwid.Edit("pop:", "")))
+
+        def selectable(self):
+            return True
+
+        def keypress(self, size, key):
+            sess = holder[0]
+            sess.point("keypress")
+            if key == "c":
+                sess.calls.append(("close",))
+                self.launcher.close_pop_up()
+                rv = None
+            else:
+                rv = super().keypress(size, key)
+            sess.calls.append(("keypress", key, rv, tuple(size), "popup"))
+            return rv
+
+        def mouse_event(self, size, event, button, col, row, focus):
+            sess = holder[0]
+            sess.point("mouse")
+            rv = self._w.mouse_event(size, event, button, col, row, focus)
+            sess.calls.append(("mouse", (event, button, col, row), bool(rv), tuple(size), "popup"))
+            return rv
+
+    class Launch(urwid.PopUpLauncher):
+        def __init__(self, i):
+            super().__init__(urwid.Button(f"p{i}"))
+
+        def keypress(self, size, key):
+            if key == "o":
+                holder[0].calls.append(("open",))
+                self.open_pop_up()
+                return None
+            return super().keypress(size, key)
+
+        def create_pop_up(self):
+            return PopRec(self)
+
+        def get_pop_up_parameters(self):
+            return {"left": 0, "top": 1, "overlay_width": 12, "overlay_height": 3}
+
+    class NoHookScreen(prd.Screen):
+        @property
+        def hook_event_loop(self):
+            raise AttributeError("hook_event_loop")
+
+    _CLASSES = {"Rec": Rec, "PopRec": PopRec, "Launch": Launch, "NoHookScreen": NoHookScreen}
+    return _CLASSES
+
+
 class _Session:
     """One run of one session (fault-free or with one injected exception)."""
 
@@ -143,40 +252,8 @@ class _Session:
         frame = urwid.Frame(lb, header=urwid.Text("hdr"), footer=self.status)
         self.inner = urwid.AttrMap(frame, "body")
 
-        class Rec(urwid.WidgetWrap):
-            _sizing = frozenset(["box"])
-
-            def __init__(self, w, tag, sel=True):
-                self.tag = tag
-                self.sel = sel
-                super().__init__(w)
-
-            def selectable(self):
-                return self.sel
-
-            def keypress(self, size, key):
-                sess.point("keypress")
-                # (an unselectable page must not be offered keys at all; if it is, the call is recorded and the key
-                # handed back)
-                rv = super().keypress(size, key) if self.sel else key
-                if rv == "B":
-                    # a widget may pass on a DIFFERENT key than it was given (a vi-keys wrapper does): the
-                    # unhandled-input handler must see what the widget returned
-                    rv = "translated B"
-                    sess.res.probe("widget_returned_a_different_key")
-                sess.calls.append(("keypress", key, rv, tuple(size), self.tag))
-                return rv
-
-            def mouse_event(self, size, event, button, col, row, focus):
-                sess.point("mouse")
-                rv = self._w.mouse_event(size, event, button, col, row, focus)
-                sess.calls.append(("mouse", (event, button, col, row), bool(rv), tuple(size), self.tag))
-                return rv
-
-            def render(self, size, focus=False):
-                if not sess.harness_render:
-                    sess.point("render")
-                return super().render(size, focus)
+        Rec = _classes()["Rec"]
+        Rec.sess_holder[0] = sess  # (classes are made once per process: MetaSignals keeps every class for ever)
 
         # a second page the application switches to (loop.widget = ...) when it sees f6
         self.page2 = Rec(urwid.Filler(urwid.Edit("page2:", "")), "page2")
@@ -192,51 +269,9 @@ class _Session:
 
         sess = self
 
-        class PopRec(urwid.WidgetWrap):
-            _sizing = frozenset(["box"])
-
-            def __init__(self, launcher):
-                self.launcher = launcher
-                super().__init__(urwid.Filler(urwid.Edit("pop:", "")))
-
-            def selectable(self):
-                return True
-
-            def keypress(self, size, key):
-                sess.point("keypress")
-                if key == "c":
-                    sess.calls.append(("close",))
-                    self.launcher.close_pop_up()
-                    rv = None
-                else:
-                    rv = super().keypress(size, key)
-                sess.calls.append(("keypress", key, rv, tuple(size), "popup"))
-                return rv
-
-            def mouse_event(self, size, event, button, col, row, focus):
-                sess.point("mouse")
-                rv = self._w.mouse_event(size, event, button, col, row, focus)
-                sess.calls.append(("mouse", (event, button, col, row), bool(rv), tuple(size), "popup"))
-                return rv
-
-        class Launch(urwid.PopUpLauncher):
-            def __init__(self):
-                super().__init__(urwid.Button(f"p{i}"))
-
-            def keypress(self, size, key):
-                if key == "o":
-                    sess.calls.append(("open",))
-                    self.open_pop_up()
-                    return None
-                return super().keypress(size, key)
-
-            def create_pop_up(self):
-                return PopRec(self)
-
-            def get_pop_up_parameters(self):
-                return {"left": 0, "top": 1, "overlay_width": 12, "overlay_height": 3}
-
-        return Launch()
+        cl = _classes()
+        cl["Rec"].sess_holder[0] = sess
+        return cl["Launch"](i)
 
     # ------------------------------------------------------------------------------------
     def run(self) -> str:  # noqa: C901, PLR0912, PLR0915
@@ -252,6 +287,7 @@ class _Session:
         init_handlers = {}
         saved_handlers = {s: signal.getsignal(s) for s in SIGSET}
         urwid.util.set_encoding("utf-8")
+        urwid.CanvasCache.clear()  # (process-global: nothing of an earlier session may be found in it - or kept alive by it)
         try:
             for s, name in zip(SIGSET, cfg.get("handlers", ["default"] * 3)):
                 signal.signal(s, HANDLER_CHOICES[name])
@@ -282,13 +318,7 @@ class _Session:
             if cfg["screen"] == "external":
                 screen = prd.Screen(input=W.SimTTYIn(tty), output=out, bracketed_paste_mode=cfg.get("paste", False), focus_reporting=cfg.get("focus", False))
             else:
-
-                class NoHookScreen(prd.Screen):
-                    @property
-                    def hook_event_loop(self):
-                        raise AttributeError("hook_event_loop")
-
-                screen = NoHookScreen(input=W.SimTTYIn(tty), output=out, bracketed_paste_mode=cfg.get("paste", False), focus_reporting=cfg.get("focus", False))
+                screen = _classes()["NoHookScreen"](input=W.SimTTYIn(tty), output=out, bracketed_paste_mode=cfg.get("paste", False), focus_reporting=cfg.get("focus", False))
             self.screen = screen
             if cfg.get("sigkeys_before"):
                 # signal keys changed BEFORE the screen is started stay changed ("if this function is called after
@@ -511,6 +541,7 @@ class _Session:
                 loops.restore_asyncio_state()
                 for s, h in saved_handlers.items():
                     signal.signal(s, h if h is not None else signal.SIG_DFL)
+                urwid.CanvasCache.clear()
         if self.log_sink is not None:
             self.log_sink.extend(w.log.lines)
         return w.log.digest()
